@@ -17,10 +17,13 @@ def Param.WF (p : Param) : Prop :=
 instance (p : Param) : Decidable p.WF := by unfold Param.WF; exact inferInstance
 
 /-- shape of a `SequenceNumberSet` as built by `new` or by the decoder: `numBits ≤ 256`, eight 32-bit words,
-    words beyond `M = ceil(numBits/32)` zero -/
+    words beyond `M = ceil(numBits/32)` zero, and every sequence number it can denote is an `i64`
+    (`base + numBits − 1 ≤ i64::MAX`; sets built by `new` from `i64` members satisfy it, the decoder with
+    fixes/D-wire-4.patch rejects the others) -/
 def SNSet.WF (s : SNSet) : Prop :=
   isI64 s.base ∧ s.numBits ≤ 256 ∧ s.bitmap.length = 8 ∧ (∀ w ∈ s.bitmap, w < 4294967296) ∧
-    s.bitmap.drop (divCeil32 s.numBits) = List.replicate (8 - divCeil32 s.numBits) 0
+    s.bitmap.drop (divCeil32 s.numBits) = List.replicate (8 - divCeil32 s.numBits) 0 ∧
+    (0 < s.numBits → s.base + ((s.numBits : Int) - 1) ≤ 9223372036854775807)
 instance (s : SNSet) : Decidable s.WF := by unfold SNSet.WF; exact inferInstance
 
 /-- shape of a `FragmentNumberSet` as built by `new` (the decoder rebuilds the set with `new`):
@@ -51,7 +54,7 @@ def Sub.fieldsWF : Sub → Prop
     reader.length = 4 ∧ writer.length = 4 ∧ isI64 sn ∧ lastFrag < 4294967296 ∧ isI32 count
   | .infoDst p => p.length = 12
   | .infoSrc version vendor p => version.length = 2 ∧ vendor.length = 2 ∧ p.length = 12
-  | .infoReply m uni multi => m = false ∧ multi = [] ∧ (∀ l ∈ uni, l.WF)
+  | .infoReply m uni multi => (m = false → multi = []) ∧ (∀ l ∈ uni, l.WF) ∧ (∀ l ∈ multi, l.WF)
   | .infoTs inv sec frac => sec < 4294967296 ∧ frac < 4294967296 ∧ (inv = true → sec = 4294967295 ∧ frac = 4294967295)
   | .pad => True
 instance (s : Sub) : Decidable s.fieldsWF := by cases s <;> (unfold Sub.fieldsWF; exact inferInstance)
